@@ -150,6 +150,9 @@ func (c rendererContext) RenderChildren(w io.Writer) Error {
 }
 
 func (c rendererContext) RenderFile(filename string, b map[string]any) (string, error) {
+	if c.ctx.config.fileDepth >= maxFileDepth {
+		return "", c.Errorf("template files are nested more than %d deep (a template that includes itself?): %s", maxFileDepth, filename)
+	}
 	source, err := os.ReadFile(filename)
 	if err != nil && os.IsNotExist(err) {
 		// Is it cached?
@@ -173,7 +176,9 @@ func (c rendererContext) RenderFile(filename string, b map[string]any) (string, 
 		bindings[k] = v
 	}
 	buf := new(bytes.Buffer)
-	if err := Render(root, buf, bindings, c.ctx.config); err != nil {
+	config := c.ctx.config
+	config.fileDepth++
+	if err := Render(root, buf, bindings, config); err != nil {
 		return "", err
 	}
 	return buf.String(), nil
